@@ -64,7 +64,11 @@ def filterLabels (f : Filter) : List String :=
   (if f.tags.any mixedList then ["mixed-taglist"] else []) ++
   (if f.tags.contains [""] then ["untagged-filter"] else []) ++
   (if f.tags.contains [] then ["empty-taglist"] else []) ++
-  (if f.limit.isSome then ["limit"] else [])
+  (if f.limit.isSome then ["limit"] else []) ++
+  (if f.hosts.eraseDups.length != f.hosts.length then ["dup-hosts"] else []) ++
+  (if f.paths.eraseDups.length != f.paths.length then ["dup-paths"] else []) ++
+  (if f.tags.eraseDups.length != f.tags.length then ["dup-taglists"] else []) ++
+  (if f.tags.any (fun l => l.eraseDups.length != l.length) then ["dup-tags-in-list"] else [])
 
 /-- which clause of the grouping statement is false (for the signature) -/
 def groupSig (g : GroupBy) (snaps : List Snap) (groups : List (List Nat)) : String :=
